@@ -1333,3 +1333,56 @@ def gen_relations_init():
 
 
 GENERATORS = GENERATORS + (('RelationsInit', gen_relations_init),)
+
+
+# ---------------------------------------------------------------------------------------------------------------------
+
+def gen_cxt_lines():
+    """`formats.cxt.iter_cxt_lines`: the generator of the lines of a .cxt file, yield by yield; `Cxt.dumpf` prints each line."""
+    tree = _src('formats', 'cxt.py')
+    fn = _function(tree, 'iter_cxt_lines')
+    if [a.arg for a in fn.args.args] != ['objects', 'properties', 'bools'] or [a.arg for a in fn.args.kwonlyargs] != ['symbols']:
+        raise Decline('iter_cxt_lines: signature changed')
+    parts = []
+    for st in _nodoc(fn.body):
+        if isinstance(st, ast.Assert):
+            continue
+        if isinstance(st, ast.Expr) and isinstance(st.value, ast.Yield) and st.value.value is not None:
+            v = st.value.value
+            if isinstance(v, ast.Constant) and isinstance(v.value, str):
+                parts.append('[%s.toList]' % ('"%s"' % v.value.replace('\\', '\\\\').replace('"', '\\"')))
+                continue
+            if (isinstance(v, ast.JoinedStr) and len(v.values) == 1 and isinstance(v.values[0], ast.FormattedValue)
+                    and ast.unparse(v) in ("f'{len(objects):d}'", "f'{len(properties):d}'")):
+                which = 'objects' if 'objects' in ast.unparse(v) else 'properties'
+                parts.append('[(toString %s.length).toList]' % which)
+                continue
+            raise Decline('iter_cxt_lines: unsupported yield %s' % ast.unparse(v))
+        if isinstance(st, ast.Expr) and isinstance(st.value, ast.YieldFrom) and isinstance(st.value.value, ast.Name) \
+                and st.value.value.id in ('objects', 'properties'):
+            parts.append(st.value.value.id)
+            continue
+        if isinstance(st, ast.For) and ast.unparse(st.target) == 'row' and ast.unparse(st.iter) == 'bools' and not st.orelse:
+            if [ast.unparse(s) for s in st.body] != ["yield ''.join((symbols[value] for value in row))"]:
+                raise Decline('iter_cxt_lines: the row loop changed: %s' % ast.unparse(st))
+            parts.append('(bools.map fun row => row.flatMap fun value => symbols value)')
+            continue
+        raise Decline('iter_cxt_lines: unsupported statement %s' % ast.unparse(st)[:60])
+    cls = [c for c in tree.body if isinstance(c, ast.ClassDef) and c.name == 'Cxt']
+    if len(cls) != 1:
+        raise Decline('no class Cxt')
+    dump = [ast.unparse(s) for f in cls[0].body if isinstance(f, ast.FunctionDef) and f.name == 'dumpf' for s in _nodoc(f.body)]
+    if dump != ['write = functools.partial(print, file=file)',
+                'for line in iter_cxt_lines(objects, properties, bools, symbols=cls.symbols):\n    write(line)']:
+        raise Decline('Cxt.dumpf changed: %r' % dump)
+    if 'symbols = SYMBOLS' not in [ast.unparse(s) for s in cls[0].body]:
+        raise Decline('Cxt.symbols is not SYMBOLS')
+    return '\n'.join([
+        '/- GENERATED by harness/extract2.py from iter_cxt_lines in concepts/formats/cxt.py — do not edit.',
+        '   The yielded lines in order; `Cxt.dumpf` prints each of them (line + newline). Strings are lists of characters. -/',
+        'namespace FCA.Generated', '',
+        'def cxt_lines (symbols : Bool → List Char) (objects properties : List (List Char)) (bools : List (List Bool)) : List (List Char) :=',
+        '  ' + ' ++ '.join(parts), '', 'end FCA.Generated', ''])
+
+
+GENERATORS = GENERATORS + (('CxtLines', gen_cxt_lines),)
